@@ -55,6 +55,7 @@ func verifC10CheckResult(resp *dhcpv4.DHCPv4, err error, end int64, xid dhcpv4.T
 // when collide != 0) and nmsgs datagrams.  sched != 0 explores scheduling choices at blocking points.
 func VerifC10Two(nmsgs, collide, sched int) {
 	verifSchedule(sched != 0)
+	verifRaceDetect(true)
 	k := &verifCall{conn: newVerifConn()}
 	c, err := NewWithConn(k.conn, verifHW, WithTimeoutNs(int64(verifU32("T"))), WithRetry(1))
 	verifAssert(err == nil, "client-created")
